@@ -365,6 +365,10 @@ def client_lock_info(path=None):
                             inner = ast.Module(body=withs[0].body, type_ignores=[])
                             if calls(inner, 'self.connect') and not calls(inner, 'self.transaction.execute'):
                                 scope = 'connectOnly'
+                                # is that `with` taken only when no socket is seen (`if not self.socket: with ...`)?
+                                for n in ast.walk(f):
+                                    if isinstance(n, ast.If) and withs[0] in list(ast.walk(n)) and 'socket' in ast.unparse(n.test):
+                                        scope = 'connectOnlyWhenCold'
                             else:
                                 scope = 'partial'
                         elif withs or mentions_lock(f):
